@@ -241,7 +241,7 @@ def f_unary(system, momentum):
     return fn
 
 
-def f_binary(s1, s2):
+def f_binary(s1, s2, group="all"):
     d = len(s1) + 1
 
     def fn(R):
@@ -266,6 +266,10 @@ def f_binary(s1, s2):
             calls += [("cross", "plain", lambda x, y, T: x.cross(y))]
         if d == 4:
             calls += [("boost_p4", "plain", lambda x, y, T: x.boost_p4(y))]
+        groups = {"arith": ("add", "subtract", "dot", "deltaphi", "cross"), "directional": ("is_parallel", "is_antiparallel", "is_perpendicular"),
+                  "delta": ("deltaeta", "deltaR2"), "deltaangle": ("deltaangle",), "boost": ("boost_p4",)}
+        if group != "all":
+            calls = [c for c in calls if c[0] in groups.get(group, ())]
         for label, kind, call in calls:
             try:
                 se = call(sa, sb, tols)
@@ -280,9 +284,10 @@ def f_binary(s1, s2):
                 if len(so_) == 3 and so_[2] == "tau":
                     R.assume(oc_[3] > 0)  # a negative stored tau is the numeric backends' encoding of a spacelike result
             goals += compare(R, label, se, ob, env, kind)
-        # isclose of the symbolic backend is exact equality of every compared coordinate
-        se = sa.isclose(sb)
-        goals += compare(R, "isclose-is-equal", se, a.equal(b), env, "bool")
+        if group in ("all", "isclose"):
+            # isclose of the symbolic backend is exact equality of every compared coordinate
+            se = sa.isclose(sb)
+            goals += compare(R, "isclose-is-equal", se, a.equal(b), env, "bool")
         return goals
 
     return fn
@@ -341,5 +346,8 @@ def families(tier="quick"):
             add(f"inplace/{n}", f_inplace(s), [SB + "_replace_data", SB + "VectorSympy.__iadd__", SB + "VectorSympy.__imul__"])
             seconds = dict.fromkeys([s, lanes.CART[d], allsys[(si * 5 + 1) % len(allsys)]]) if tier != "thorough" else allsys
             for s2 in seconds:
-                add(f"binary/{n}|{lanes.sysname(s2)}", f_binary(s, s2), [SB + f"VectorSympy{d}D._wrap_result", "vector._lib.SympyLib", "vector._compute"])
+                for grp in ("arith", "directional", "delta", "deltaangle", "isclose") + (("boost",) if d == 4 else ()):
+                    if grp in ("delta", "deltaangle") and d == 2:
+                        continue
+                    add(f"binary-{grp}/{n}|{lanes.sysname(s2)}", f_binary(s, s2, grp), [SB + f"VectorSympy{d}D._wrap_result", "vector._lib.SympyLib", "vector._compute"])
     return fams
